@@ -461,6 +461,146 @@ func (g pairGen) emit(attr string, short, long map[string]any) {
 	}
 	g.ctx.Count("pair:" + attr)
 	g.ctx.Add("c03.shortLong", pairArgs{Attr: attr, Short: short, Long: long, Files: envFiles})
+	// the same pair with a second document that refines / extends the attribute in place (override.Merge works on the
+	// canonical tree of the first document): short ≡ long must survive the merge, in either order, as a second file or
+	// as a second YAML document of the same file
+	if !g.xkeys && g.ctx.Rng.Intn(2) == 0 {
+		if other := g.otherDoc(attr, long); other != nil {
+			mode := []string{"file-after", "doc-after", "file-after", "doc-after", "file-before", "doc-before"}[g.ctx.Rng.Intn(6)]
+			g.ctx.Count("pair-merged:" + mode + ":" + attr)
+			g.ctx.Add("c03.shortLong", pairArgs{Attr: attr, Short: short, Long: long, Files: envFiles, Other: other, Mode: mode})
+		}
+	}
+}
+
+func sortedKeys(m map[string]any) []string {
+	ks := make([]string, 0, len(m))
+	for k := range m {
+		ks = append(ks, k)
+	}
+	sort.Strings(ks)
+	return ks
+}
+
+// otherDoc: a second document touching the attribute of the pair: one entry refined in long syntax, one entry added in
+// short or long syntax. nil = no second document for this attribute.
+func (g pairGen) otherDoc(attr string, long map[string]any) map[string]any {
+	r := g.ctx.Rng
+	svc, _ := long["services"].(map[string]any)["s"].(map[string]any)
+	osvc := map[string]any{}
+	top := map[string]any{}
+	under := func(path string, v any) { // "build.args" → {build: {args: v}}
+		parts := strings.Split(path, ".")
+		m := osvc
+		for _, k := range parts[:len(parts)-1] {
+			n := map[string]any{}
+			m[k] = n
+			m = n
+		}
+		m[parts[len(parts)-1]] = v
+	}
+	at := func(path string) any {
+		var v any = svc
+		for _, k := range strings.Split(path, ".") {
+			m, ok := v.(map[string]any)
+			if !ok {
+				return nil
+			}
+			v = m[k]
+		}
+		return v
+	}
+	switch {
+	case attr == "depends_on":
+		names := sortedKeys(svc["depends_on"].(map[string]any))
+		n := names[r.Intn(len(names))]
+		switch r.Intn(4) {
+		case 0:
+			osvc["depends_on"] = map[string]any{n: map[string]any{"condition": "service_healthy", "restart": true}}
+		case 1:
+			osvc["depends_on"] = map[string]any{n: map[string]any{"condition": "service_completed_successfully", "required": false}}
+		case 2:
+			osvc["depends_on"] = []any{"base"}
+		case 3:
+			osvc["depends_on"] = map[string]any{n: map[string]any{"condition": "service_started", "restart": true}, "base": map[string]any{"condition": "service_healthy"}}
+		}
+	case attr == "networks":
+		names := sortedKeys(svc["networks"].(map[string]any))
+		n := names[r.Intn(len(names))]
+		switch r.Intn(3) {
+		case 0:
+			osvc["networks"] = map[string]any{n: map[string]any{"aliases": []any{"al"}}}
+		case 1:
+			osvc["networks"] = map[string]any{n: map[string]any{"priority": 5}}
+		case 2:
+			osvc["networks"] = []any{n}
+		}
+		tn := map[string]any{}
+		for _, k := range names {
+			tn[k] = nil
+		}
+		top["networks"] = tn
+	case strings.HasPrefix(attr, "kv:") && !strings.HasSuffix(attr, "s.labels") || attr == "kv:build.labels" || attr == "kv:deploy.labels":
+		path := attr[3:]
+		m, ok := at(path).(map[string]any)
+		if !ok || len(m) == 0 {
+			return nil
+		}
+		ks := sortedKeys(m)
+		k := ks[r.Intn(len(ks))]
+		var nv any = "ov"
+		switch path {
+		case "extra_hosts":
+			nv = "9.9.9.9"
+		case "build.ssh":
+			nv = "/other"
+		}
+		if r.Intn(2) == 0 {
+			under(path, map[string]any{k: nv})
+		} else {
+			under(path, []any{k + "=" + fmt.Sprint(nv)})
+		}
+		if strings.HasPrefix(path, "build.") {
+			osvc["build"].(map[string]any)["context"] = "."
+		}
+	case attr == "build":
+		osvc["build"] = []any{map[string]any{"dockerfile": "D.x"}, map[string]any{"args": map[string]any{"A": "1"}}, map[string]any{"target": "t"}}[r.Intn(3)]
+	case attr == "volumes":
+		l := svc["volumes"].([]any)
+		t, _ := l[r.Intn(len(l))].(map[string]any)["target"].(string)
+		if t == "" {
+			return nil
+		}
+		osvc["volumes"] = []any{map[string]any{"type": "volume", "source": "ov", "target": t, "read_only": true}}
+	case attr == "ports" || attr == "ports-int":
+		osvc["ports"] = []any{[]any{"9999:9999", map[string]any{"target": 9999, "published": "9999"}, 9999}[r.Intn(3)]}
+	case attr == "secrets" || attr == "configs":
+		osvc[attr] = []any{[]any{map[string]any{"source": "sec1", "target": "/t"}, "sec3"}[r.Intn(2)]}
+	case attr == "devices":
+		osvc["devices"] = []any{[]any{"/dev/z", map[string]any{"source": "/dev/z", "target": "/dev/z", "permissions": "r"}}[r.Intn(2)]}
+	case attr == "env_file":
+		osvc["env_file"] = []any{"b.env", []any{"b.env"}, []any{map[string]any{"path": "b.env", "required": false}}}[r.Intn(3)]
+	case strings.HasPrefix(attr, "string-vs-list:"):
+		k := attr[len("string-vs-list:"):]
+		v := map[string]string{"dns": "1.1.1.1", "dns_search": "other.example", "tmpfs": "/tmp", "env_file": "b.env"}[k]
+		if r.Intn(2) == 0 {
+			osvc[k] = v
+		} else {
+			osvc[k] = []any{v}
+		}
+	case attr == "healthcheck.test":
+		osvc["healthcheck"] = map[string]any{"interval": "5s"}
+	case attr == "extends":
+		osvc["labels"] = map[string]any{"a": "b"}
+	default:
+		return nil
+	}
+	osvc2 := map[string]any{"s": osvc}
+	d := map[string]any{"services": osvc2}
+	for k, v := range top {
+		d[k] = v
+	}
+	return d
 }
 
 func svcWith(k string, v any) map[string]any { return map[string]any{k: v} }
